@@ -430,7 +430,7 @@ func c20BTMix(r *Run, cfg *Stream) {
 		}
 	}
 	for ti, role := range roles {
-		role := role
+		role, ti := role, ti
 		s.Go(fmt.Sprintf("t%d.role%d", ti, role), func() {
 			for i := 0; i < nOps && !r.Failed(); i++ {
 				switch role {
@@ -461,7 +461,8 @@ func c20BTMix(r *Run, cfg *Stream) {
 				case 4: // fetch the schema, list tables
 					_, err := w.GetTable(tmp)
 					okOrStatus("GetTable", err)
-					_, err = w.ListTables("projects/p/instances/i")
+					// every view of the listing (a view may make the server look into each table)
+					_, err = w.ListTablesView("projects/p/instances/i", []btapb.Table_View{btapb.Table_VIEW_UNSPECIFIED, btapb.Table_NAME_ONLY, btapb.Table_SCHEMA_VIEW, btapb.Table_FULL}[(i+ti)%4])
 					okOrStatus("ListTables", err)
 				default: // drop rows during scans
 					okOrStatus("DropRowRange", w.DropRowRange(tmp, []byte("t00"), false))
